@@ -12,6 +12,21 @@ def hook_commits():
         return []
 
 CHECKS = {
+ "C11": dict(
+    category="exploration", design_ref="DESIGN.md §4 C11",
+    technique="linearizability checking of recorded store histories with porcupine (per-id partition, transaction-level map model) + open-transaction occupancy monitor + change-callback chain checker + sequential reference-map diff",
+    text="2-12 goroutines run 20-40 read/write transactions of 1-3 operations over 3 ids on badgerstore (typed/untyped, prefix on/off) and mockstore; every transaction is recorded with call/return stamps from one global counter and unique written values and the history is checked against a sequential per-id map model by porcupine (timeout = inconclusive); an occupancy monitor asserts writer exclusivity per id, the OnChange log must form a before/after chain with one callback per successful mutation on the caller's goroutine, the final content must equal the model; long single-goroutine histories are diffed operation by operation against a reference map including empty ids, generated ids, nil and wrong-type values, vetoes and double Close. Hook points after commits perturb the schedule; a subset runs under -race.",
+    note="Transaction = atomic unit (call before Read/Write, return after Close); binary-marshal value mode not exercised; mockstore has no veto/type checks."),
+ "C13": dict(
+    category="exploration", design_ref="DESIGN.md §4 C13",
+    technique="reference-model monitor over query results after Flush + Flush-completion monitor on index hook points (slow key function, parked index worker)",
+    text="Random histories of creates, key-changing/key-keeping updates, nil keys and deletes on a real badgerstore QueryStore with two indexes (typed/untyped, prefix on/off); after each Flush a battery of ~150 queries (prefixes empty/partial/full/longer/with NUL and ':', 3 filters, all offsets and limits incl. -1 and 0, both directions) is compared with a reference scan of the model map in bytewise (key,id) order. Flush is checked against the number of index tasks enqueued vs the index.end hook count at the moment it returns, with a slow key function and with the index worker parked after its commit. Queries racing with maintenance run under -race and are asserted after the Flush.",
+    note="Keys and ids are NUL-free; RebuildIndexes is decided by C12."),
+ "C14": dict(
+    category="exploration", design_ref="DESIGN.md §4 C14",
+    technique="callback-log vs mutation-log checker with independently computed keys, in-callback index probe, reference before/after query results vs Events(); gateway reference model replaying reset/query events against fresh gets",
+    text="Store level: every mutation of a real QueryStore is flushed individually; exactly one OnQueryChange callback iff some index key changed, with the right id/before/after, and inside the callback the index already lists the id under the new key and not under the old; for 60 queries per history Events(q) must report affected when the reference result changed and unaffected when neither key matches. Service level: store.QueryHandler (ordinary and query resources, with and without path params / AffectedResources) serves a gateway model that applies system.reset and query events (sending query requests for each held query) and must equal a fresh get after every mutation.",
+    note="Between 'result changed' and 'neither key matches' either answer is accepted; Events evaluated inside the callback."),
  "C01": dict(
     category="exploration", design_ref="DESIGN.md §4 C01",
     technique="per-group occupancy monitor in every harness callback under stress + hook-driven schedule perturbation and directed gates; Go race detector on deliberately unsynchronised per-group scratch memory as second detector",
